@@ -103,7 +103,12 @@ Definition judge_c10 (c : c10case) : verdict :=
 
 (* ---- C11: validated ietf-json-patch never alters keys or services ---- *)
 
-Inductive c11case := mk_c11 (doc : obj) (patch : json) (impl_valid : bool) (impl : option obj).
+Inductive c11case :=
+| mk_c11 (doc : obj) (patch : json) (impl_valid : bool) (impl : option obj)
+| mk_c11seq (doc : obj) (patches : list json) (impl_all_valid : bool) (impl : option obj).
+
+(* the key / service entries a document holds (absent, null and [] all mean none) *)
+Definition entries_of_member (k : string) (d : obj) : json := JArr (map JObj (parse_objects (lookup k d))).
 
 Definition opt_json_equiv' (a b : option json) : bool :=
   match a, b with
@@ -125,6 +130,20 @@ Definition judge_c11 (c : c11case) : verdict :=
       else if negb (Bool.eqb (validate_with [] p) iv) then Mismatch 2
       else if negb (patches_in_domain [p]) then OutOfDomain 3
       else if andb iv (negb (opt_obj_equiv (apply_patches doc [p]) impl)) then Mismatch 4
+      else Pass
+  | mk_c11seq doc ps iv impl =>
+      (* a validated ietf-json-patch followed by dedicated actions naming unknown ids: the keys and
+         services at the end are the ones at the start *)
+      let frame_ok :=
+        match impl with
+        | Some r => andb (json_equiv (entries_of_member "publicKey" doc) (entries_of_member "publicKey" r))
+                         (json_equiv (entries_of_member "service" doc) (entries_of_member "service" r))
+        | None => true
+        end in
+      if andb iv (negb frame_ok) then SpecFail 5
+      else if negb (Bool.eqb (forallb (validate_with []) ps) iv) then Mismatch 6
+      else if negb (patches_in_domain ps) then OutOfDomain 7
+      else if andb iv (negb (opt_obj_equiv (apply_patches doc ps) impl)) then Mismatch 8
       else Pass
   end.
 
